@@ -73,7 +73,7 @@ def run(ctx):
         ctx.sample({"family": fam, "cfg": g, "edge": edges[len(edges) // 3]["e"]})
         for router in FAMILIES[fam]:
             s = _replay(ctx, b, router, c, edges, stats, "edges %s" % g)
-            if s["edges"] + s["abandoned"] + s["skipped_no_rule"] != len(edges):
+            if s["edges"] + s["abandoned"] + s["skipped_no_rule"] != len(edges) and not ctx.violations:
                 ctx.fail("driver replayed %d of %d edges (%s)" % (s["edges"], len(edges), router))
     # long behaviours
     nb = 12 if q else 150
@@ -99,7 +99,7 @@ def run(ctx):
              "clauses_without_rule_in_code": {"bsc,bytom": ["header time vs parent time"], "hsc": ["gas limit within 1/256 of the parent"]}}
     if stats["drift"]:
         ctx.note("DRIFT: %d replayed steps differ from the implementation-shaped prediction while C29 holds" % stats["drift"])
-        if stats["drift"] * 2 > max(1, stats["predicted"]):
+        if stats["drift"] * 2 > max(1, stats["predicted"]) and not ctx.violations:
             ctx.fail("more than half of the replayed steps drifted from the model: the check cannot exercise C29 any more")
     return ctx.finish(rule="P-EDGE: every (set of stored headers + canonical assignment, submission) edge printed once by TLC (VIEW hides the "
                       "history) and executed on the real header_sync entrance after re-creating the source state; headers carry real seals. "
